@@ -1,13 +1,21 @@
 ---------------------------- MODULE TV_Base64 ----------------------------
-(* records [id, s, obs] : obs = decoded bytes as a sequence of integers, or <<-1>> for an error *)
+(* records [id, s, obs, strobs, strign, sbytes] : obs = decoded bytes as a sequence of integers, or <<-1>> for an error;   *)
+(* strobs / strign = the same scalar read into a String without / with ignore_binary_tag_for_string                         *)
 EXTENDS Base64, Json, IOUtils
 Recs == ndJsonDeserialize(IOEnv.TRACE)
 VARIABLE l
 Init == l = 1 /\ TLCSet(1, 0)
 Next == /\ l <= Len(Recs)
         /\ LET r == Recs[l] IN
-             IF r.obs = Decode(r.s) THEN TRUE
-             ELSE PrintT(<<"MISMATCH", r.id, ToJson([s |-> r.s, observed |-> r.obs, required |-> Decode(r.s)])>>) /\ TLCSet(1, TLCGet(1) + 1)
+             LET d == Decode(r.s)
+                 ascii == d # <<0 - 1>> /\ \A j \in 1..Len(d) : d[j] < 128
+                 (* into a String: the decoded payload (it has to be UTF-8: decided here for ASCII payloads, otherwise either *)
+                 (* the payload or an error); with ignore_binary_tag_for_string the text as written                           *)
+                 strOk == IF d = <<0 - 1>> THEN r.strobs = <<0 - 1>>
+                          ELSE IF ascii THEN r.strobs = d ELSE r.strobs \in {d, <<0 - 1>>}
+                 ignOk == r.strign = r.sbytes IN
+             IF r.obs = d /\ strOk /\ ignOk THEN TRUE
+             ELSE PrintT(<<"MISMATCH", r.id, ToJson([s |-> r.s, observed |-> r.obs, required |-> d, as_string |-> r.strobs, as_text |-> r.strign])>>) /\ TLCSet(1, TLCGet(1) + 1)
         /\ l' = l + 1
 Spec == Init /\ [][Next]_l
 Accepted == /\ PrintT(<<"TVDONE", TLCGet("stats").diameter - 1, Len(Recs), TLCGet(1)>>)
